@@ -897,6 +897,18 @@ pub fn corpus() -> Vec<(String, Input)> {
             }
             s
         })),
+        // nesting far beyond anything meaningful: an error or a result, not an exhausted stack
+        ("corpus/pointer-nesting-100000".into(), t(&format!("type A {{ a: {}u8 }}", "*const ".repeat(100_000)))),
+        ("corpus/array-nesting-100000".into(), t(&format!("type A {{ a: {}u8{} }}", "[".repeat(100_000), "; 1]".repeat(100_000)))),
+        ("corpus/pointer-nesting-in-signature-100000".into(), t(&format!("type A {{ x: u32 }} impl A {{ #[address(0x10)] pub fn f(&self, p: {}u8) -> {}u8; }}", "*mut ".repeat(100_000), "*const ".repeat(50_000)))),
+        ("corpus/pointer-nesting-in-extern-value-100000".into(), t(&format!("#[address(0x10)] pub extern g: {}u8;", "*mut ".repeat(100_000)))),
+        ("corpus/brace-nesting-100000".into(), t(&format!("type A {}{}", "{".repeat(100_000), "}".repeat(100_000)))),
+        ("corpus/paren-nesting-in-attribute-100000".into(), t(&format!("#[size{}4{}] type A {{ x: u32 }}", "(".repeat(100_000), ")".repeat(100_000)))),
+        ("corpus/unclosed-bracket-nesting-100000".into(), t(&format!("type A {{ a: {}u8", "[".repeat(100_000)))),
+        ("corpus/type-nesting-64".into(), t(&format!("type A {{ a: {}u8 }}", "*const ".repeat(63)))),
+        ("corpus/type-nesting-65".into(), t(&format!("type A {{ a: {}u8 }}", "*const ".repeat(65)))),
+        ("corpus/array-nesting-5000".into(), t(&format!("type A {{ a: {}u8{} }}", "[".repeat(5_000), "; 1]".repeat(5_000)))),
+        ("corpus/pointer-nesting-5000".into(), t(&format!("type A {{ a: {}u8 }}", "*const ".repeat(5_000)))),
         ("corpus/two-impl-blocks".into(), t("type T { x: u32 } impl T { #[address(0x10)] pub fn a(&self); } impl T { #[address(0x20)] pub fn b(&self); }")),
         ("corpus/api-absolute-path".into(), Input::Api { ptrw: 8, ops: vec![ApiOp::AddFile { base: "in".into(), path: "/dev/shm/pvh-c12-corpus-abs.pyxis".into(), content: "type A { a: u8 }".into() }, ApiOp::BuildAndWrite { out: "out".into(), out_is_file: false }] }),
         ("corpus/api-empty-path".into(), Input::Api { ptrw: 8, ops: vec![ApiOp::AddModule { path: "".into(), text: "type A { a: u8 }".into() }, ApiOp::BuildAndWrite { out: "out".into(), out_is_file: false }] }),
